@@ -55,6 +55,11 @@ CHECKS = {
                      "to the exact term-wise integral for all vertex positions and exponents up to the stated order; sign convention of complements; composite shapes "
                      "translated symbolically; exact area of closed chains with quadratic/cubic pieces and symbolic control points.",
                 technique="symbolic execution of the real code (SYMX, raw expression DAG) + z3 polynomial identities"),
+    "C09": dict(level="model_checking", design="4/C09",
+                text="move/scale/rotate executed under SYMX with all polygon vertices and the transformation parameters symbolic: z3 proves vertex images, identity of the "
+                     "returned object, moments of order <= 2 of the image (integrator queried before and after), |det| area scaling and restoration by the inverse; composite and "
+                     "unbounded shapes: images, kind, and T(p) in T(S) <=> p in S with the query point free.",
+                technique="symbolic execution of the real code (SYMX, raw expression DAG) + z3 polynomial identities / QF_LRA"),
 }
 NA = {}
 
